@@ -60,8 +60,13 @@ OwnImports(src, c) ==
       \/ s.op \in {"from", "star", "import"} /\ s.m \in Mods /\ (s.m = c \/ ParentOf(s.m) = c)
       \/ s.op = "from" /\ s.m = src /\ ModOfParts(PP(src) \o <<s.n>>) = c
 
-IncList(R, m, inc) ==      \* the list spliced in by `*inc`; <<"!">> marks a NameError / TypeError
+IncList(R, m, inc) ==      \* the list spliced in by `*inc`; <<"!">> marks a NameError / TypeError / AttributeError
   IF inc = "" THEN <<>>
+  ELSE IF inc \in AttrIncs
+  THEN LET b == AttrBase(inc) IN          \* `*b.__all__` : b must be bound to a module whose namespace has a list __all__
+       IF b \in DOMAIN R.ns[m] /\ IsModId(R.ns[m][b]) /\ R.ns[m][b].m \in PyPresent(R)
+          /\ "__all__" \in DOMAIN R.ns[R.ns[m][b].m] /\ R.ns[R.ns[m][b].m]["__all__"] \in DOMAIN R.lists
+       THEN R.lists[R.ns[R.ns[m][b].m]["__all__"]] ELSE <<"!">>
   ELSE IF inc \in DOMAIN R.ns[m] /\ R.ns[m][inc] \in DOMAIN R.lists THEN R.lists[R.ns[m][inc]]
   ELSE <<"!">>
 
